@@ -13,12 +13,44 @@ type Once = sync.Once
 type Map = sync.Map
 
 type Mutex struct {
-	locked bool
-	Owner  int
+	locked  bool
+	Owner   int
+	waiters []*mwaiter
 }
+
+// mwaiter: a thread blocked in Lock.  As in the Go runtime ("starvation mode"),
+// a waiter that has been blocked for more than 1 ms (of virtual time) is handed
+// the mutex directly by Unlock; before that the mutex is simply released and
+// whoever runs next may take it (barging).  Without this a retry loop that
+// sleeps while holding the mutex and re-takes it right after releasing it
+// (Hook.manager) would starve a waiter for ever under the default schedule.
+type mwaiter struct {
+	id      int
+	since   int64
+	granted bool
+}
+
+const starvationNs = int64(1e6)
 
 func (m *Mutex) Lock() {
 	vsched.Point()
+	if vsched.On && !vsched.Abort && m.locked {
+		w := &mwaiter{id: vsched.CurID(), since: vsched.Clock}
+		m.waiters = append(m.waiters, w)
+		vsched.WaitUntil(func() bool { return w.granted || !m.locked })
+		for i, x := range m.waiters {
+			if x == w {
+				m.waiters = append(m.waiters[:i], m.waiters[i+1:]...)
+				break
+			}
+		}
+		if !w.granted {
+			m.locked = true
+		}
+		vsched.Progress()
+		m.Owner = vsched.CurID()
+		return
+	}
 	vsched.WaitUntil(func() bool { return !m.locked })
 	m.locked = true
 	vsched.Progress()
@@ -41,6 +73,11 @@ func (m *Mutex) TryLock() bool {
 func (m *Mutex) Unlock() {
 	if !m.locked && !vsched.Abort {
 		panic("vsync: unlock of unlocked mutex")
+	}
+	if vsched.On && !vsched.Abort && len(m.waiters) > 0 && vsched.Clock-m.waiters[0].since > starvationNs {
+		m.waiters[0].granted = true // ownership passes on; the mutex stays locked
+		m.Owner = m.waiters[0].id
+		return
 	}
 	m.locked = false
 }
